@@ -410,3 +410,131 @@ theorem resolve_asLoopRoot (t : Tree) (k : Key) (q : List Key) :
   cases t <;> first | rfl | (cases k <;> simp [resolve, asLoopRoot, child])
 
 end Pg.C08
+
+namespace Pg.C08
+open Tree
+
+/-! ### round 2: seal stays inside the subtree; calls keep the protection flags -/
+
+/-- A node transformer applied at `p` (seal / sym_seal / set_accessor_writable) changes nothing at
+locations that are neither at or below `p` nor above it. -/
+theorem mapAt_frame (g : Tree → Tree) : (p q : List Key) → (root : Tree) → ¬ p <+: q → ¬ q <+: p →
+    resolve (mapAt g root p) q = resolve root q
+  | [], q, _, h, _ => absurd List.nil_prefix h
+  | _ :: _, [], _, _, h => absurd List.nil_prefix h
+  | k :: rest, k' :: q', root, h1, h2 => by
+    simp only [mapAt]
+    cases hc : root.child k with
+    | none => rfl
+    | some c =>
+      simp only [resolve]
+      by_cases hk : k = k'
+      · subst hk
+        rw [setChild_child_eq hc, hc]
+        exact mapAt_frame g rest q' c (fun hp => h1 (List.cons_prefix_cons.2 ⟨rfl, hp⟩))
+          (fun hp => h2 (List.cons_prefix_cons.2 ⟨rfl, hp⟩))
+      · rw [setChild_child_ne hk]
+
+/-- Kind, flags and class of a node: what no call may change. -/
+def shell : Tree → Option (Nat × Flags × Nat)
+  | .leaf _ => none
+  | .dict f _ => some (0, f, 0)
+  | .list f _ => some (1, f, 0)
+  | .obj f c _ => some (2, f, c)
+
+theorem shell_setChild (t c : Tree) (k : Key) : shell (t.setChild k c) = shell t := by
+  cases t <;> cases k <;> rfl
+
+theorem shell_rawSet (t v : Tree) (k : Key) : shell (rawSet t k v).1 = shell t := by
+  cases t <;> cases k <;> simp only [rawSet] <;> (try split) <;> rfl
+
+theorem shell_treeSet (G : Table) (env : Env) : (p : List Key) → (t v : Tree) → shell (treeSet G env t p v).1 = shell t
+  | [], t, v => rfl
+  | [k], t, v => by
+    simp only [treeSet]
+    cases hf : t.flags? with
+    | none => rfl
+    | some f =>
+      simp only []
+      split
+      · rfl
+      · exact shell_rawSet _ _ _
+  | k :: k2 :: rest, t, v => by
+    simp only [treeSet]
+    cases t.child k with
+    | none => rfl
+    | some c => exact shell_setChild _ _ _
+
+theorem shell_treeSetAll (G : Table) (env : Env) : (ps : List (List Key × Tree)) → (t : Tree) →
+    shell (treeSetAll G env t ps).1 = shell t
+  | [], t => rfl
+  | (p, v) :: rest, t => by
+    simp only [treeSetAll]
+    have h1 := shell_treeSet G env p t v
+    cases hw : treeSet G env t p v with
+    | mk t1 r1 =>
+      rw [hw] at h1
+      cases r1 with
+      | ok => simp only []; rw [shell_treeSetAll G env rest t1]; exact h1
+      | err e => exact h1
+
+theorem shell_rebindNode (G : Table) (env : Env) (t : Tree) (pairs : List (List Key × Tree)) (r : Bool) :
+    shell (rebindNode G env t pairs r).1 = shell t := by
+  rcases rebindNode_cases G env t pairs r with h | h | h | ⟨⟨f, c, attrs, rfl⟩, h⟩
+  · rw [h]
+  · rw [h]; exact shell_treeSetAll G env pairs t
+  · rw [h]; exact shell_treeSetAll G env _ t
+  · rw [h]
+    have := shell_treeSetAll G env pairs (asLoopRoot (.obj f c attrs))
+    cases hr : (treeSetAll G env (asLoopRoot (.obj f c attrs)) pairs).1 with
+    | obj f' c' attrs' =>
+      rw [hr] at this
+      simp only [asLoopRoot, shell, Option.some.injEq, Prod.mk.injEq, true_and] at this
+      obtain ⟨hf', hc'⟩ := this
+      subst hf'; subst hc'
+      simp [fromLoopRoot, shell]
+    | leaf a => rw [hr] at this; simp [asLoopRoot, shell] at this
+    | dict f' kvs => rw [hr] at this; simp [asLoopRoot, shell] at this
+    | list f' xs => rw [hr] at this; simp [asLoopRoot, shell] at this
+
+/-- Every call (every entry point, every argument, every scope, refused or not) leaves kind, class
+and protection flags of its receiver as they were. -/
+theorem shell_nodeStep (G : Table) (env : Env) (t : Tree) (op : Op) : shell (nodeStep G env t op).1 = shell t := by
+  cases t with
+  | leaf a => cases op <;> rfl
+  | list f xs =>
+    cases op <;> simp only [nodeStep] <;> first
+      | rfl
+      | exact shell_rebindNode G env _ _ _
+      | (simp only [lSetItem, lSetSlice, lDelItem, lDelSlice, lIAdd, lIMul, lAppend, lExtend, lInsert, lPop, lRemove,
+          lClear, lSort, lReverse]; repeat' split) <;> rfl
+  | dict f kvs =>
+    cases op <;> simp only [nodeStep] <;> first
+      | rfl
+      | exact shell_rebindNode G env _ _ _
+      | (simp only [dSetItem, dDelItem, dIOr, dUpdate, dSetDefault, dPop, dPopItem, dClear, dSetAttr, dDelAttr];
+          repeat' split) <;> first | rfl | exact shell_rebindNode G env _ _ _
+  | obj f c attrs =>
+    cases op <;> simp only [nodeStep] <;> first
+      | rfl
+      | exact shell_rebindNode G env _ _ _
+      | (simp only [oSetAttr]; repeat' split) <;> rfl
+
+end Pg.C08
+
+namespace Pg.C08
+open Tree
+
+theorem stepAt_resolve (G : Table) (env : Env) (op : Op) : (p : List Key) → (root r : Tree) →
+    resolve root p = some r → resolve (stepAt G env root p op).1 p = some (nodeStep G env r op).1
+  | [], root, r, h => by simp only [resolve, Option.some.injEq] at h; subst h; rfl
+  | k :: rest, root, r, h => by
+    simp only [resolve] at h
+    cases hc : root.child k with
+    | none => simp [hc] at h
+    | some c =>
+      simp only [hc] at h
+      simp only [stepAt, hc, resolve, setChild_child_eq hc]
+      exact stepAt_resolve G env op rest c r h
+
+end Pg.C08
